@@ -631,9 +631,17 @@ def build_unit(template_path, src_dir, verus_dir):
             cache[f] = (t, code_mask(t))
         return cache[f]
 
-    for line in open(template_path).read().splitlines():
-        s = line.strip()
-        if s.startswith("//@INCLUDE"):
+    def flatten(text, depth=0):
+        """//@INCLUDE lines replaced (recursively) by the lines of the included file, so that directives inside
+        included files (//@TYPE, //@ASSUMES, nested //@INCLUDE) are processed like the template's own."""
+        if depth > 5:
+            raise LostAnchor("include cycle")
+        res = []
+        for line in text.splitlines():
+            s = line.strip()
+            if not s.startswith("//@INCLUDE"):
+                res.append(line)
+                continue
             inc = open(os.path.join(verus_dir, s.split()[1])).read()
             # `except=f1,f2`: the ASSUMED contract of these functions is left out because this unit verifies their
             # real bodies itself
@@ -652,7 +660,13 @@ def build_unit(template_path, src_dir, verus_dir):
                         else:
                             break
                     inc = inc[:start] + inc[bc + 1:]
-            out.append(expand_types(inc, load, meta))
+            res.extend(flatten(inc, depth + 1))
+        return res
+
+    for line in flatten(open(template_path).read()):
+        s = line.strip()
+        if False:
+            pass
         elif s.startswith("//@TYPE"):
             out.append(expand_types(line, load, meta))
         elif s.startswith("//@LOOP"):
@@ -673,14 +687,34 @@ def build_unit(template_path, src_dir, verus_dir):
             tp = os.path.join(verus_dir, "units", kv["unit"])
             if not os.path.exists(tp):
                 raise LostAnchor("unit template %s missing" % kv["unit"])
-            sig, req, ens = template_fn_header(open(tp).read(), kv["fn"])
+            ttext = open(tp).read()
+            if kv.get("after"):
+                # disambiguates equally named methods of different impls: search from this marker on
+                k0 = ttext.find(kv["after"])
+                if k0 < 0:
+                    raise LostAnchor("marker `%s` not found in %s" % (kv["after"], kv["unit"]))
+                ttext = ttext[k0:]
+            if kv.get("full"):
+                # the WHOLE contract (signature, requires, ensures) exactly as the verifying unit states it
+                m0 = re.search(r"(?m)^\s*(?:pub\s+)?fn\s+%s\s*\(" % re.escape(kv["fn"]), ttext)
+                if not m0:
+                    raise LostAnchor("contract of %s not found in its unit" % kv["fn"])
+                b0 = re.compile(r"(?m)^\s*\{\s*$").search(ttext, m0.end())
+                head = re.sub(r"(?m)^\s*//[^\n]*\n", "", ttext[m0.start():b0.start()])
+                out.append("    // PROVED-BY: unit %s (fn %s, real body) - contract copied verbatim (//@ASSUMES full)" % (kv["unit"][:-3], kv["fn"]))
+                out.append("    #[verifier::external_body]\n" + head.rstrip() + "\n    { unimplemented!() }")
+                meta.setdefault("assumes", []).append("%s:%s (full)" % (kv["unit"], kv["fn"]))
+                continue
+            sig, req, ens = template_fn_header(ttext, kv["fn"])
             if req != norm(kv["req"]):
                 raise LostAnchor("%s in %s requires `%s`, this unit assumes `%s`" % (kv["fn"], kv["unit"], req, kv["req"]))
-            if norm(kv["clause"]) not in norm(ens):
-                raise LostAnchor("%s in %s no longer ensures `%s`" % (kv["fn"], kv["unit"], kv["clause"]))
+            clauses = [kv["clause"]] + ([kv["clause2"]] if kv.get("clause2") else [])
+            for cl in clauses:
+                if norm(cl) + "," not in norm(ens) + ",":
+                    raise LostAnchor("%s in %s no longer ensures `%s`" % (kv["fn"], kv["unit"], cl))
             sig_txt = re.search(r"(?m)^\s*(?:pub\s+)?fn\s+%s\s*\([^\n]*" % re.escape(kv["fn"]), open(tp).read()).group(0).strip()
             out.append("    // PROVED-BY: unit %s (fn %s, real text of the arm)" % (kv["unit"][:-3], kv["fn"]))
-            out.append("    #[verifier::external_body]\n    %s\n        requires %s\n        ensures %s\n    { unimplemented!() }" % (sig_txt, kv["req"], kv["clause"]))
+            out.append("    #[verifier::external_body]\n    %s\n        requires %s\n        ensures %s\n    { unimplemented!() }" % (sig_txt, kv["req"], ", ".join(clauses)))
             meta.setdefault("assumes", []).append("%s:%s" % (kv["unit"], kv["fn"]))
         elif s.startswith("//@BODY") or s.startswith("//@ARM") or s.startswith("//@MACROFN") or s.startswith("//@PREFIX") or s.startswith("//@DISPATCH"):
             kind = s.split()[0][3:]
